@@ -37,7 +37,7 @@ def val(o):
 
 
 def make_case(rng, tier):
-    kinds = ['ew', 'ew', 'bin', 'bin', 'binc', 'getitem', 'sum', 'transpose', 'reshape', 'dot', 'dotc', 'outer', 'prod', 'buffer', 'buffer', 'powbin']
+    kinds = ['ew', 'ew', 'bin', 'bin', 'binc', 'getitem', 'sum', 'transpose', 'reshape', 'dot', 'dotc', 'outer', 'prod', 'buffer', 'buffer', 'powbin', 'fftfilter']
     prog = gen_program(rng, maxsteps=6 if tier == 'quick' else 12, kinds=kinds)
     if rng.random() < 0.06:
         # a traced base raised to a traced exponent: (x*x + 1) ** (0.5*x + 1), followed by whatever the generator appends
@@ -275,6 +275,8 @@ def two_fails(case):
 
 
 def replay_case(ctx, case):
+    if case.get('late'):
+        return late_check(case)
     if case.get('op') == 'kwargs':
         return kwargs_fails(case)
     if case.get('op') == 'two':
@@ -282,8 +284,72 @@ def replay_case(ctx, case):
     return check(case)
 
 
+def late_case(rng, tier):
+    """a program in two stages: x is wrapped, stage 1 runs on it, only then the second independent y is wrapped;
+    the independents are listed in another order than they were created"""
+    prog = gen_program(rng, input_shapes=[rng.choice([(2,), (3,)])], maxsteps=4,
+                       kinds=['ew', 'bin', 'binc', 'getitem', 'sum', 'buffer', 'reshape'])
+    c = make_case(rng, tier)
+    c['prog'] = prog
+    c['late'] = True
+    c['order'] = rng.choice(['yx', 'yx', 'xy'])
+    c['rec'] = [mk_input(rng, prog['inputs'][0], c['rec_kind'], c['D'], c['P']), mk_input(rng, (), c['rec_kind'], c['D'], c['P'])]
+    for r in c['replays']:
+        r['xs'] = [mk_input(rng, prog['inputs'][0], r['kind'], r['D'], r['P']), mk_input(rng, (), r['kind'], r['D'], r['P'])]
+    return c
+
+
+def late_check(case):
+    prog = case['prog']
+
+    def direct(x, y):
+        u = run_program(prog, [x])
+        return u * y + y
+    try:
+        with np.errstate(all='ignore'):
+            want0 = direct(wrap(case['rec'][0], case['rec_kind']), wrap(case['rec'][1], case['rec_kind']))
+            cg = algopy.CGraph()
+            fx = algopy.Function(wrap(case['rec'][0], case['rec_kind']))
+            fu = run_program(prog, [fx])
+            fyv = algopy.Function(wrap(case['rec'][1], case['rec_kind']))      # wrapped only now
+            fz = fu * fyv + fyv
+            cg.trace_off()
+    except Exception:
+        return None
+    yx = case['order'] == 'yx'
+    cg.independentFunctionList = [fyv, fx] if yx else [fx, fyv]
+    cg.dependentFunctionList = [fz]
+    if not close(val(fz.x), val(want0), 1e-12):
+        return 'late-record-value: traced value differs from the direct evaluation while recording'
+    for rp in case['replays'] + case['replays'][::-1]:
+        xv, yv = wrap(rp['xs'][0], rp['kind']), wrap(rp['xs'][1], rp['kind'])
+        try:
+            with np.errstate(all='ignore'):
+                want = direct(wrap(rp['xs'][0], rp['kind']), wrap(rp['xs'][1], rp['kind']))
+        except Exception:
+            continue
+        try:
+            with np.errstate(all='ignore'):
+                got = cg.function([yv, xv] if yx else [xv, yv])[0]
+        except Exception as ex:
+            return 'late-replay-exception: replay of a graph whose second independent was wrapped after stage 1 raised %s' % (
+                str(ex).strip().splitlines()[-1][:100])
+        if type(got) != type(want) and not (np.isscalar(got) or np.isscalar(want)):
+            return 'late-replay-type: replay returned %s, direct evaluation %s (independents listed as %s)' % (type(got).__name__, type(want).__name__, case['order'])
+        if not close(val(got), val(want), 1e-12):
+            return 'late-replay-value: replay differs from the direct evaluation when the independents are listed as %s and y was wrapped after stage 1' % case['order']
+    return None
+
+
 def run(ctx):
     rng = ctx.rng
+    for i in range(60 if ctx.tier == 'quick' else 600):
+        case = late_case(rng, ctx.tier)
+        ctx.evaluations += 1
+        ctx.count('late-wrap=' + case['order'])
+        f = late_check(case)
+        if f:
+            ctx.report(case, 'failure', f)
     for i in range(300 if ctx.tier == 'quick' else 4000):
         case = make_case(rng, ctx.tier)
         ctx.evaluations += 1
